@@ -1664,6 +1664,20 @@ theorem c16_src_McBlockExtra (v : Val) (f : Frag) (he : mcBlockExtra.enc v = som
     SrcBlk.McBlockExtra false (f ++ k) = some (Blk.view_McBlockExtra v, k) :=
   Blk.refines_McBlockExtra.on_encoding v f he k
 
+/-- `AccountBlock.deserialize` (`acc_trans#5`: `account_addr`, `transactions` = `load_hashmap_aug(64, Transaction by reference,
+    CurrencyCollection)` — the `(dict, extras)` tuple of the inline `HashmapAug 64 ^Transaction CurrencyCollection`, every Transaction through the
+    regenerated `Transaction` parser —, `state_update:^HashUpdate`), regenerated from the source: every field, exact consumption. -/
+theorem c16_src_AccountBlock (v : Val) (f : Frag) (he : accountBlock.enc v = some f) (hv : v.noVar = true) (k : Frag) :
+    SrcBlk.AccountBlock false (f ++ k) = some (Blk.view_AccountBlock v, k) :=
+  Blk.refines_AccountBlock.on_encoding v f he hv k
+
+/-- `BlockExtra.deserialize` (`block_extra#4a33f6fd`: `in_msg_descr`, `out_msg_descr`, `account_blocks` — each a `HashmapAugE 256 …` behind a
+    reference, read by `load_hashmap_aug_e` with the regenerated `InMsg` / `OutMsg` / `AccountBlock` parsers on the leaves —, `rand_seed`,
+    `created_by`, `custom:(Maybe ^McBlockExtra)`), regenerated from the source: every field, exact consumption. -/
+theorem c16_src_BlockExtra (v : Val) (f : Frag) (he : blockExtra.enc v = some f) (hv : v.noVar = true) (k : Frag) :
+    SrcBlk.BlockExtra false (f ++ k) = some (Blk.view_BlockExtra v, k) :=
+  Blk.refines_BlockExtra.on_encoding v f he hv k
+
 /-- the hand model of `deserialize_shard_hashes` + `BinTree.deserialize` (`Rd.loadShardHashes`; source text pinned by the translator)
     against `HashmapE 32 ^(BinTree X)`: `None` / the dict of BinTree objects whose `.list` holds the leaves left to right, each parsed by
     a leaf reader that agrees with `X`; exact consumption. -/
